@@ -736,6 +736,14 @@ def c20(prop, tier, seed):
     for variant, n in (("rel", 600 if quick else 12000), ("sync", 600 if quick else 12000)):
         binp = D.build(variant)
         D.run_sharded(agg, binp, prop, seed, n, tier, variant=variant, tag="n", workers=4, extra={"max_threads": 16})
+    # cold-start campaign: one case per process, the parallel schedule comes before any other calculation of that process
+    # (racy lazy initialisation of process-wide state can only show in the first calculations of a process)
+    n_cold = 48 if quick else 1200
+    for variant in ("rel", "dbg"):
+        binp = D.build(variant)
+        D.run_sharded(agg, binp, prop, seed, n_cold, tier, variant=variant, tag="c", workers=4, chunk=1, start=5_000_000,
+                      extra={"max_threads": 16, "cold": 1})
+    stats["cold_start_processes"] = 2 * n_cold
     tsan = D.build("tsan")
     n_tsan = 160 if quick else 3000
     before = agg.crashes
@@ -803,7 +811,8 @@ def c20(prop, tier, seed):
     return D.conclude(prop, tier, seed, agg, t0, C20_RULE, COMMON_ASSUME + [
         "all OS schedules is sampled, not enumerated; the library has no internal synchronisation points where delays could be injected, "
         "jitter is applied between jobs only"],
-        required={"handover_chains": 1, "schedules:16-threads": 1, "schedules:shared-maps": 1, "schedules:owned-maps": 1},
+        required={"handover_chains": 1, "schedules:16-threads": 1, "schedules:shared-maps": 1, "schedules:owned-maps": 1,
+                  "cold_start_schedules": 1, "pingpong_visits": 1},
         extra_cov={"sanitizers": stats, "variants": ["rel", "sync", "tsan", "miri-sync"]})
 
 
